@@ -177,7 +177,7 @@ def _block_bool_effects(body, bb, S, eval_expr):
     return out
 
 
-def reachable_under(body, forced, track_bools=True, max_states=20000, eval_expr=None, stop_at=(), call_results=None, start_bb=0):
+def reachable_under(body, forced, track_bools=True, max_states=20000, eval_expr=None, stop_at=(), call_results=None, start_bb=0, start_state=None):
     """blocks reachable from entry when `forced(body, bb)` (-> successor block or None) decides some switches,
     bool tests on immutable paths stay consistent, and the values of bool locals that are assigned constants, copies,
     negations or expressions that `eval_expr(body, expr)` can evaluate under the caller's assumptions are tracked along
@@ -187,9 +187,10 @@ def reachable_under(body, forced, track_bools=True, max_states=20000, eval_expr=
     Returns dict block -> one witness state (frozenset)."""
     call_results = call_results or {}
     # start_bb: explore from that block with nothing known (what holds after a given site, whatever led there)
-    start = (start_bb, frozenset())
+    # start_state: {("b", local): bool} known at the start (the answer of the call just left)
+    start = (start_bb, frozenset((start_state or {}).items()))
     seen = {start}
-    reach = {start_bb: frozenset()}
+    reach = {start_bb: start[1]}
     work = [start]
     cache = {}
     S = _tracked_bools(body) if track_bools else set()
